@@ -75,6 +75,20 @@ def c10_1(ctx):
               "sec_to_public_pair(strict=True) accepts (prefix byte, length class) %s; the unique encodings are exactly %s" % (sorted(acc.m)[:12], sorted(want)),
               sample={"function": f.qualname, "domain": "256 prefix bytes x %d length classes" % len(lens), "strict_accepts": sorted(acc.m), "lenient_accepts": sorted(lenient.m)[:20], "atoms": len(leaf.cache)})
     ctx.note("lenient (consensus) row: %d cells accepted" % len(lenient.m))
+    # without STRICTENC (consensus) the hybrid forms 06 / 07 are the only additional encodings a key parser accepts
+    # (the blobs of the decision table carry y = 0, an even y: of the two hybrid prefixes only 06 names that parity)
+    want_l = want | {(6, "u")}
+    ctx.check(set(lenient.m) == want_l, "lenient-decision-table", ctx.where(f),
+              "sec_to_public_pair(strict=False) accepts (prefix byte, length class) %s; a key parser accepts exactly %s there for an even y (CHECKSIG without STRICTENC runs in this mode: a 33-byte blob with another prefix must not parse, a hybrid prefix names the parity of y)"
+              % (sorted(lenient.m)[:12], sorted(want_l)), sample={"lenient_accepts": sorted(lenient.m)[:20]})
+    # an uncompressed / hybrid blob is a point only if (x, y) is on the curve; a hybrid prefix names the parity of y
+    pair_rets = [e for e in rets if isinstance(e.value, ast.Tuple) and len(e.value.elts) == 2]
+    for e in pair_rets:
+        ops_e = [o for o in (gi.f_opaques(e.cond) if e.cond not in (True, False) else []) if isinstance(o, str)]
+        on_curve = [o for o in ops_e if ".contains_point(" in o]
+        ctx.check(bool(on_curve) and all(sym.entails(gi.f_and(e.cond, ("op", "truthy(%s)" % genp)), ("op", o)) for o in on_curve), "uncompressed-on-curve", ctx.where(f, e.node),
+                  "sec_to_public_pair returns the pair of an uncompressed blob without testing that it lies on the curve: (1, 1) decodes to a `public pair`")
+
     other = [e for e in exits if e.kind not in ("return", "raise")]
     ctx.check(not other, "sec-fails-by-raising", ctx.where(f), "sec_to_public_pair has an exit that neither returns a point nor raises")
     bad_r = [e for e in exits if e.kind == "raise" and not isinstance(e.node, ast.Assert) and not ru.is_raise_of("EncodingError")(e)]
